@@ -285,8 +285,8 @@ let lane_setup args =
         | PErr0 EEmptyUnixPath -> "err:emptyunix" | PErr0 EPortInUnixPath -> "err:portunix" | PErr0 EMismatched -> "err:mismatched" | PErr0 EUnknownScheme -> "err:scheme" | PErr0 EStartTlsUnix -> "err:io no-contact"
         | PTcp (_, port, m, _) -> Printf.sprintf "tcp port=%s mode=%s" (decimal_of_n port) (mode m)
         | PPreTcp (m, _) -> "pretcp mode=" ^ mode m
-        | PUnix path ->       (* the lane listens on one socket path only: any other path cannot be connected to *)
-            if hex_of_bytes path = hex_of_bytes (bytes_of_string "/tmp/l3h-setup.sock") then "unix path=" ^ hex_of_bytes path else "err:io no-contact"
+        | PUnix path ->       (* the lane listens on two socket paths (one of them not UTF-8): any other path cannot be connected to *)
+            if hex_of_bytes path = hex_of_bytes (bytes_of_string "/tmp/l3h-setup.sock") || hex_of_bytes path = hex_of_bytes (bytes_of_string "/tmp/l3h-setup-\xe9.sock") then "unix path=" ^ hex_of_bytes path else "err:io no-contact"
         | PPreUnix -> "preunix"
       end
   | _ -> "BAD-ARGS"
